@@ -389,6 +389,49 @@ ADDENDA = {
             " One further recorded finding (multilevel x jump-time x several dates raises).", ""),
 }
 
+# second table, appended after ADDENDA: the source ties and generator patterns added in the last session
+ADDENDA2 = {
+    "C01": (" Source-derived tie: create_q_vector, compute_intensity_of_jumps (1-d and n-d), the jump-probability closure, the grid's "
+            "left_point / right_point / middle (1-d and n-d, own axis length) and TruncatedLevyMeasure are translated from /repo's source on every "
+            "run (loops as folds); proved on the translation: every rate is the measure of the state's cell, 0 at the origin, rates >= 0 and "
+            "their sum = intensity = mass of the truncated support minus the origin cell for every additive non-negative measure and every "
+            "increasing axis; probabilities sum to 1; in n dimensions the cell is the product of the 1-d cells of each state's own axis.",
+            "", " + source-derived definitions (PyLite translator) re-proved on every run"),
+    "C02": (" Hand-built grids with axes of different lengths (a geometry no shipped constructor produces) for both copula samplers.", "", ""),
+    "C04": (" Source-derived tie: compute_mu_h (the fold), the process drift of MarkovChainProcess.initialisation, vol_adjustment, the equivalent "
+            "diffusion coefficient and the truncated measure's integrals are translated from /repo's source on every run; proved on the translation: "
+            "mu_h = sum of x_k times the mass of the C01 cell of x_k for every axis and origin, drift + sum x_k q_k = the mean rate of the truncated "
+            "process in the declared representation, squared equivalent coefficient = sigma^2 (+ central-cell variance for infinite variation). "
+            "User-defined models on the public abstract classes (Brownian part together with infinite-variation jumps, sums of measures).",
+            "", " + source-derived definitions (PyLite translator) re-proved on every run"),
+    "C06": (" Source-derived tie: compute_mc_paths_giles and criteria_giles are translated from /repo's source on every run (vectors as lists, sqrt "
+            "and 2**x as function parameters with stated laws); proved on the translation: sum V_l / N_l <= (1 - theta) rmse^2 and N_l >= 1 for "
+            "all positive variances and costs of any length, a True verdict implies squared extrapolated bias <= theta rmse^2, both read the same "
+            "theta. Every numeric argument in every carrier that holds its value exactly (ints, numpy scalars, 0-d arrays, lists).",
+            " One defect repaired in /repo (a6d6f48: integer cost array).", " + source-derived definitions (PyLite translator) re-proved on every run"),
+    "C09": (" High moment orders (strata up to 175) with a 50-digit reference.",
+            " Recorded findings: float overflow of the closed form's intermediates from order ~144.", ""),
+    "C13": (" Source-derived tie: CTMCGrid.refine (whole method, attribute stores as results), middle, left_point / right_point, the uniform and "
+            "fixed-size constructors after the root search, the credit axes and Coordinate.__imul__ are translated from /repo's source on every "
+            "run; proved on the translation for any number of refinements: 2^k (n-1) + 1 points, old states at 2^k i, h / 2^k, origin 2^k o, bounds "
+            "unchanged, strictly increasing, exactly one new state strictly inside each old gap; constructors well formed under the stated "
+            "hypotheses (the two recorded findings appear as explicit hypotheses).", "", " + source-derived definitions (PyLite translator) re-proved on every run"),
+    "C15": (" Source-derived tie: eleven path builders (diffusion running sums, fixed-date and jump-time assembly, CTMC projection, coupled slice) "
+            "are translated from /repo's source on every run with every random draw as a tagged variate stream; proved on the translation: "
+            "running sums, lengths, strictly increasing times, fine and coarse diffusion from the same normals.",
+            " The two epsilon-insertion closures are outside the translatable subset (tied by the correspondence only).", " + source-derived definitions (PyLite translator) re-proved on every run"),
+    "C16": (" Source-derived tie: LevyLiborModel.df, LevyForwardModel.df, the base model's df / drift and Constant.__call__ are translated from "
+            "/repo's source on every run; proved on the translation: df(0) = 1, 0 < df <= 1, non-increasing, Lipschitz through every tenor, the "
+            "value at T_p is the product of simple compounding factors and on (T_p, T_p+1] one further factor (the repaired compounding stays "
+            "proved); Euler with the translated coefficients gives x0 + M (Y_t - Y_0).", "", " + source-derived definitions (PyLite translator) re-proved on every run"),
+    "C18": (" Size regimes of the vector arguments (long strike vectors at several n, prime lengths) judged element by element.", "", ""),
+    "C19": (" Second source-derived tie: the copula model's theta (whole function, d = 1..3, guards), survival probability, first-to-default "
+            "spread, the CDS legs / residual of both pricers, CDS.evaluate and interval_I; proved on the translation: theta is the measure of the "
+            "union of the default half-spaces (inclusion-exclusion) for every finitely additive non-negative measure, non-negative and monotone "
+            "in each threshold; the fair spread equates the legs. User-defined copulas that are not symmetric functions.", "", ""),
+    "C20": (" User-defined subclasses of the shipped exponential models (same constructor, overriding discounting / drift) in every stream.", "", ""),
+}
+
 NOT_YET = "check not built yet in this session (planned: DESIGN.md §4); not claimed until its Lean model, theorems and correspondence exist"
 
 
@@ -402,6 +445,11 @@ def main():
             if pid in ADDENDA:
                 t2, n2, k2 = ADDENDA[pid]
                 text, note, tech = text + t2, note + n2, tech + k2
+            if pid in ADDENDA2:
+                t2, n2, k2 = ADDENDA2[pid]
+                text, note = text + t2, note + n2
+                if k2 and k2 not in tech:
+                    tech = tech + k2
             checks.append({
                 "property_id": pid,
                 "quick_cmd": f"./check {pid} quick",
